@@ -374,6 +374,28 @@ def shared_check():
     return dict(failures=failures, checked=checked, undecided=undecided)
 
 
+def direct_access_check(fns):
+    """direct accesses to parser state from production bodies: the accessors a production calls itself.  The committed
+    list (gvc/baseline.json) is what K7 stands for plus the directive bracketing of the grammar; any OTHER production that
+    opens, closes, clears or consults the keyword-version stack changes which words are reserved where (C13), and any
+    other direct access is a dependency of a memoised result on state outside the key (C17) that outlives the call (C07)"""
+    failures = []
+    checked = 0
+    ACC = {'current_version', 'begin_keywords', 'end_keywords', 'clear_version', 'is_keyword', 'in_directive', 'begin_directive', 'end_directive', 'clear_directive'}
+    VERSION = {'current_version', 'begin_keywords', 'end_keywords', 'clear_version'}
+    base_p = os.path.join(VERIF, 'gvc', 'baseline.json')
+    allowed = set(tuple(x) for x in json.load(open(base_p)).get('direct_state_access', [])) if os.path.exists(base_p) else set()
+    for f in fns:
+        if f.ast and f.name not in ACC and f.name != 'init':
+            for c in sorted(called_names(f.ast) & ACC):
+                checked += 1
+                if (f.name, c) not in allowed:
+                    failures.append(fail(f.name, 'C17.direct-state-access.%s.%s' % (f.name, c),
+                                         '%s consults/changes parser state through %s(): a result that depends on state outside the memo key (and a side effect that a memo hit skips)' % (f.name, c),
+                                         ['C17', 'C07'] + (['C13'] if c in VERSION else []), f))
+    return dict(failures=failures, checked=checked)
+
+
 def effects_run(fns, table, comb):
     failures = []
     undecided_e = []
@@ -455,20 +477,9 @@ def effects_run(fns, table, comb):
     for tl, fl in sorted(readers.items()):
         failures.append(dict(fn='*', kind='%d memoised parsers depend on thread-local %s which is not part of the memo key (first: %s)' % (len(fl), tl, fl[0].name),
                              label='C17.key.%s' % tl, props=['C17'], repo='%s:%d' % (fl[0].file, fl[0].line), spec='gvc', snippet='', notes=[]))
-    # direct accesses to parser state from production bodies: the accessors a production calls itself.
-    # The committed list is what K7 stands for (plus the transitive read through is_keyword); any other direct access
-    # is a new dependency of a memoised result on state outside the key
-    ACC = {'current_version', 'begin_keywords', 'end_keywords', 'clear_version', 'is_keyword', 'in_directive', 'begin_directive', 'end_directive', 'clear_directive'}
-    base_p = os.path.join(VERIF, 'gvc', 'baseline.json')
-    allowed = set(tuple(x) for x in json.load(open(base_p)).get('direct_state_access', [])) if os.path.exists(base_p) else set()
-    for f in fns:
-        if f.ast and f.name not in ACC and f.name != 'init':
-            for c in sorted(called_names(f.ast) & ACC):
-                checked += 1
-                if (f.name, c) not in allowed:
-                    failures.append(fail(f.name, 'C17.direct-state-access.%s.%s' % (f.name, c),
-                                         '%s consults/changes parser state through %s(): a result that depends on state outside the memo key (and a side effect that a memo hit skips)' % (f.name, c),
-                                         ['C17', 'C07'], f))
+    da = direct_access_check(fns)
+    checked += da['checked']
+    failures += da['failures']
     # key definition: the extra state of the memo key must contain in_directive() (the frame of the memoised parsers
     # above minus CURRENT_VERSION, K7); a key of another shape that still consults in_directive() is fine, an impl that
     # cannot be found is a lost anchor
@@ -647,6 +658,10 @@ def ident_run(fns, table, comb, faithful_notes):
                     failures.append(fail('version_specifier', 'C13.kw.version_specifier-%s' % spec, 'no alternative lexes the specifier "%s"' % spec, ['C13'], vs))
             elif m_.group(2) != spec or m_.group(1) != m_.group(3):
                 failures.append(fail('version_specifier', 'C13.kw.version_specifier-%s' % spec, 'the alternative for "%s" opens the region "%s"' % (spec, m_.group(2)), ['C13'], vs))
+    # (7) no production outside the committed list touches the keyword-version stack
+    da = direct_access_check(fns)
+    checked += da['checked']
+    failures += [f_ for f_ in da['failures'] if 'C13' in f_['props']]
     # (6) the reserved-word tables themselves: equal (as sets) to the committed reference transcription of the
     #     keyword lists of IEEE 1364-1995 .. 1800-2017 Annex B (gvc/keywords_ref.json): detects drift of a table
     try:
